@@ -120,3 +120,19 @@ Lemma span_order_total : forall a b,
   z_cmp Ne a b = negb (z_cmp Eq a b) /\ z_cmp Gt a b = z_cmp Lt b a /\ z_cmp Ge a b = z_cmp Le b a /\
   (z_cmp Eq a b = true <-> a = b) /\ (z_cmp Lt a b = true <-> a < b).
 Proof. intros a b. unfold z_cmp. repeat split; lia. Qed.
+
+(* timespan(...) of integer components of ANY magnitude: the sum of the components, guarded by
+   nothing but python's timedelta range *)
+Lemma timespan_guard : forall d h m s ms us,
+  eval (OpTimespan d h m s ms us) =
+    (if ts_in_range (timespan_of d h m s ms us) then VTs (timespan_of d h m s ms us) else VErr RangeErr) /\
+  (forall t, ts_in_range t = true <-> - 999999999 * 86400000000 <= t < 1000000000 * 86400000000) /\
+  (forall t, ts_in_range t = true ->
+     eval (OpTimespan 0 0 0 0 0 t) = VTs t /\ eval (OpUnit UMicroseconds t) = VInt t).
+Proof.
+  intros d h m s ms us. split; [reflexivity|]. split.
+  - intros t. unfold ts_in_range, TS_MAX_DAYS, US_DAY. lia.
+  - intros t R. split; [|reflexivity]. cbn. unfold y_timespan, mk_ts, timespan_of.
+    replace (0 * 86400000000 + 0 * 3600000000 + 0 * 60000000 + 0 * 1000000 + 0 * 1000 + t) with t by lia.
+    rewrite R. reflexivity.
+Qed.
